@@ -18,7 +18,7 @@ from simcore import env
 from simcore.util import digest, rng_for, to_jsonable
 
 from poolsim import oracles, workload
-from poolsim.simpool import Decider, ProcGlobals, Sim, SimAbort, SimClock, SimParallelFactory
+from poolsim.simpool import Decider, DiskSeam, ProcGlobals, Sim, SimAbort, SimClock, SimCrash, SimParallelFactory
 
 import quara
 from quara.settings import Settings
@@ -51,9 +51,10 @@ LINE_FILE_SETS = {
 class _Patches:
     """installs the seams for one execution and removes them afterwards."""
 
-    def __init__(self, sim, clock):
+    def __init__(self, sim, clock, disk=None):
         self.sim = sim
         self.clock = clock
+        self.disk = disk
         self.saved = []
 
     def __enter__(self):
@@ -65,11 +66,18 @@ class _Patches:
             m = importlib.import_module(name)
             self.saved.append((m, "time", m.time))
             m.time = self.clock
+        if self.disk is not None:
+            for m in (qsim, qflow):
+                self.saved.append((m, "open", getattr(m, "open", None)))
+                m.open = self.disk
         return self
 
     def __exit__(self, *exc):
         for obj, attr, val in reversed(self.saved):
-            setattr(obj, attr, val)
+            if attr == "open" and val is None:
+                delattr(obj, attr)
+            else:
+                setattr(obj, attr, val)
         return False
 
 
@@ -118,11 +126,13 @@ def execute_flow(cfg, schedule=None, rng=None, max_yields=None, keep_dir=False, 
     sim = Sim(decider, clock, QUARA_DIR, max_yields=max_yields, line_files=LINE_FILE_SETS.get(line_set, ()), out_dir=out_dir,
               probes=stats_p, faults=stats_f, proc_seed=parent_seed + 17, pollution=pollution)
     test_setting = workload.build_test_setting(cfg)
+    crash = None if is_ref else schedule.get("crash")
+    disk = DiskSeam(out_dir, crash_at=(crash or {}).get("at_write"), torn=(crash or {}).get("torn"))
     saved = ProcGlobals.capture()
     ProcGlobals(np_seed=(parent_seed * 2654435761 + 12345) % (2 ** 32), py_seed=parent_seed + 99).install()
     res = {"ok": True}
     try:
-        with _Patches(sim, clock):
+        with _Patches(sim, clock, disk):
             pm = None if is_ref else (dict(cfg["parallel_mode"]) or None)
             results = qflow.execute_simulation_test_settings(
                 [test_setting], out_dir, pdf_mode="none", exec_sim_check=copy.deepcopy(cfg.get("exec_sim_check")), parallel_mode=pm,
@@ -135,12 +145,18 @@ def execute_flow(cfg, schedule=None, rng=None, max_yields=None, keep_dir=False, 
         res["globals_after"] = {"atol": Settings.get_atol(), "ineq_eps": pvc.get_ineq_const_eps()}
     except SimAbort as e:
         res = {"ok": False, "abort": str(e)}
+    except SimCrash as e:
+        res = {"ok": False, "crash": str(e), "test_setting": test_setting}
+        stats_f["crash_at_file_write"] = stats_f.get("crash_at_file_write", 0) + 1
+        if (crash or {}).get("torn") is not None:
+            stats_f["torn_write"] = stats_f.get("torn_write", 0) + 1
     except Exception as e:
         import traceback
 
         res = {"ok": False, "exception": f"{type(e).__name__}: {str(e)[:300]}", "trace": traceback.format_exc()[-1500:]}
     finally:
         saved.install()
+    res["disk_writes"] = disk.writes
     res["out_dir"] = out_dir
     res["sim"] = sim
     res["clock"] = clock
@@ -156,6 +172,8 @@ def execute_flow(cfg, schedule=None, rng=None, max_yields=None, keep_dir=False, 
 
 def _clean_schedule(rec):
     out = {"proc": [], "threads": [], "pollution": rec.get("pollution", []), "clock": rec.get("clock", [])}
+    if rec.get("crash"):
+        out["crash"] = rec["crash"]
     for e in rec.get("proc", []):
         out["proc"].append({k: v for k, v in e.items() if not k.startswith("_")})
     for e in rec.get("threads", []):
@@ -232,7 +250,26 @@ def run_record(record, want_record=True, gen=None):
             sched = record["schedules"][si]
         if sched.get("fault_free"):
             rng = None  # trivial decisions: the replay fallback (one batch, worker 0, FIFO, no switch)
-        run = execute_flow(cfg, schedule=sched, rng=rng, max_yields=record.get("max_yields") or 30_000_000, parent_seed=sched.get("parent_seed", 2 + si))
+        if gen and sched.get("crash") == "pending":
+            sched["crash"] = {"at_write": rng.randint(1, max(1, ref.get("disk_writes", 1))), "torn": rng.choice([None, None, 0.0, 0.5, 0.9])}
+        is_crash = bool(sched.get("crash"))
+        run = execute_flow(cfg, schedule=sched, rng=rng, max_yields=record.get("max_yields") or 30_000_000, parent_seed=sched.get("parent_seed", 2 + si), keep_dir=is_crash)
+        if is_crash:
+            try:
+                merge(stats["faults"], run["faults"])
+                stats["steps"] += 1
+                sched_keys.append(digest([run["sim"].events, sched["crash"]]))
+                if "crash" in run:
+                    nontrivial = True
+                    oracles.check_after_crash(cfg, ref, run, si, viol, stats, dict(sig_base, levels=oracles.level_signature(cfg)))
+                    log.append(["crash", si, run["crash"].split("(")[0], digest(sorted(os.listdir(run["out_dir"])))])
+                elif not run["ok"]:
+                    viol.append({"oracle": "H0_parallel_run_fails", "what": f"run under simulated schedule {si} failed: {run.get('exception') or run.get('abort')}", "detail": {"schedule": si}, "signature": dict(sig_base, oracle="H0_parallel_run_fails")})
+                else:
+                    stats["probes"]["crash_point_beyond_last_write"] = stats["probes"].get("crash_point_beyond_last_write", 0) + 1
+            finally:
+                shutil.rmtree(run["out_dir"], ignore_errors=True)
+            continue
         ys = [t.get("yields", 0) for t in sched.get("threads", [])]
         if ys:
             est = max(ys)
@@ -281,7 +318,10 @@ def gen_schedule_header(rng, cfg, fault_free, est, si):
     heavy = any(c["estimator"] == "lossmin" for c in cfg["cases"])
     line_set = rng.choice(["none", "none", "csys", "simulation"] + ([] if heavy else ["loss_algo"]) + (["loss_algo"] if heavy and rng.random() < 0.15 else []))
     pollution, clock = gen_fault_script(rng, False)
-    return {"proc": [], "threads": [], "pollution": pollution, "clock": clock, "policy": policy, "line_set": line_set, "parent_seed": 2 + si}
+    hdr = {"proc": [], "threads": [], "pollution": pollution, "clock": clock, "policy": policy, "line_set": line_set, "parent_seed": 2 + si}
+    if rng.random() < 0.12:
+        hdr["crash"] = "pending"  # the write index is drawn once the reference has told how many writes a run makes
+    return hdr
 
 
 def _finish(record, viol, log, sched_keys, stats, nontrivial, want_record):
